@@ -3,7 +3,10 @@
 (* Specification of pkg/trait/electricpb.Model (property C19): the mode    *)
 (* table of an electric device and its active mode.                        *)
 (*                                                                         *)
-(*   st.modes    id |-> [normal, title]          (Modes())                 *)
+(*   st.modes    id |-> [normal, title, start]   (Modes(); start is the    *)
+(*               start_time the STORED mode carries: an ordinary field of  *)
+(*               ElectricMode that a client can write, e.g. by writing     *)
+(*               back a mode it read from GetActiveMode; -1 = none)        *)
 (*   st.active   [id, normal, title, start]      (ActiveMode(); a copy of  *)
 (*               the mode taken when it became active; start = model clock *)
 (*               tick, -1 = not set; id "" = the dummy of a new model)     *)
@@ -57,10 +60,31 @@ AsActive(m, id, start) == [id |-> id, normal |-> m[id].normal, title |-> m[id].t
 (*   mask   update mask of Update: "nil" (all fields) | "normal" | "title" *)
 (*          | "both"                                                       *)
 (*   am     allow-missing (Delete)                                         *)
-(*   start  StartTime handed to SetActive (-1 = none)                      *)
+(*   start  start_time of the written mode (Create, Add, Update without a  *)
+(*          mask, SetActive; -1 = none)                                    *)
+(*   src    where the written message comes from (Add, Update):            *)
+(*          "lit"    the fields above                                      *)
+(*          "active" a copy of what GetActiveMode returns (normal, start;  *)
+(*                   Update: also its id), title edited to op.title -      *)
+(*                   the client's read-modify-write of the active mode     *)
+(*          "listed" a copy of the listed mode with that id (normal,       *)
+(*                   start), title edited to op.title                      *)
 (*   dt     ticks the harness clock advances before the call (Gen/Trace)   *)
-MkOp(o, id, n, t, m, am, s, dt) ==
-  [op |-> o, id |-> id, normal |-> n, title |-> t, mask |-> m, am |-> am, start |-> s, dt |-> dt]
+MkOpS(o, id, n, t, m, am, s, dt, src) ==
+  [op |-> o, id |-> id, normal |-> n, title |-> t, mask |-> m, am |-> am, start |-> s, dt |-> dt, src |-> src]
+MkOp(o, id, n, t, m, am, s, dt) == MkOpS(o, id, n, t, m, am, s, dt, "lit")
+Srcs == {"lit", "active", "listed"}
+
+\* the message a write-back operation writes, given what the client reads in state s (a copy of
+\* the dummy active mode of a new model has no id to update: such an operation is taken literally)
+Resolve(s, op) ==
+  IF op.op \notin {"Add", "Update"} THEN op
+  ELSE IF op.src = "active" /\ s.active.id # ""
+       THEN [op EXCEPT !.id = IF op.op = "Update" THEN s.active.id ELSE op.id,
+                       !.normal = s.active.normal, !.start = s.active.start]
+  ELSE IF op.src = "listed" /\ Has(s.modes, op.id)
+       THEN [op EXCEPT !.normal = s.modes[op.id].normal, !.start = s.modes[op.id].start]
+  ELSE op
 Masks == {"nil", "normal", "title", "both"}
 ActiveOps == {"SetActive", "Change", "Clear"}
 
@@ -71,7 +95,7 @@ Ok(s) == [err |-> "OK", post |-> s]
 Insert(s, id, op) ==
   IF op.normal /\ NormalIds(s.modes) # {} THEN Fail(s, "AlreadyExists")
   ELSE IF Has(s.modes, id) THEN Fail(s, "AlreadyExists")
-  ELSE Ok([s EXCEPT !.modes = Put(@, id, [normal |-> op.normal, title |-> op.title])])
+  ELSE Ok([s EXCEPT !.modes = Put(@, id, [normal |-> op.normal, title |-> op.title, start |-> op.start])])
 
 \* UpdateMode: invariant 1 of the Model doc comment ("at most one mode has normal = true") holds after
 \* any operation, so an update that would make a second mode normal is refused like in Create/Add
@@ -79,7 +103,9 @@ Update(s, op) ==
   IF ~Has(s.modes, op.id) THEN Fail(s, "NotFound")
   ELSE LET old == s.modes[op.id]
            new == [normal |-> IF op.mask \in {"nil", "normal", "both"} THEN op.normal ELSE old.normal,
-                   title  |-> IF op.mask \in {"nil", "title", "both"} THEN op.title ELSE old.title]
+                   title  |-> IF op.mask \in {"nil", "title", "both"} THEN op.title ELSE old.title,
+                   \* without a mask the whole message is written, start_time included
+                   start  |-> IF op.mask = "nil" THEN op.start ELSE old.start]
        IN IF new.normal /\ (NormalIds(s.modes) \ {op.id}) # {} /\ "update-no-normal-check" \notin Dev
           THEN Fail(s, "AlreadyExists")
           ELSE Ok([s EXCEPT !.modes = Put(@, op.id, new)])
@@ -98,7 +124,8 @@ SetActive(s, op) ==
                     !.changed = TRUE])
 
 \* ChangeActiveMode: the stored mode becomes active; "Updates the StartTime of the mode to the current
-\* time if the mode changes", otherwise the active mode keeps the time it became active
+\* time if the mode changes" (whatever start_time the stored mode carries), otherwise the active mode
+\* keeps the time it became active
 ChangeTo(s, t, id) ==
   IF ~Has(s.modes, id) THEN Fail(s, "NotFound")
   ELSE Ok([s EXCEPT !.active = AsActive(s.modes, id, IF id # s.active.id THEN t ELSE s.active.start),
@@ -110,7 +137,8 @@ Clear(s, t) ==
   ELSE ChangeTo(s, t, CHOOSE i \in NormalIds(s.modes) : TRUE)
 
 \* newid: the id the device allocates in CreateMode (any id not in use)
-Step(s, t, op, newid) ==
+Step(s, t, op0, newid) ==
+  LET op == Resolve(s, op0) IN
   CASE op.op = "Create"    -> Insert(s, newid, op)
     [] op.op = "Add"       -> Insert(s, op.id, op)
     [] op.op = "Update"    -> Update(s, op)
@@ -120,7 +148,8 @@ Step(s, t, op, newid) ==
     [] op.op = "Clear"     -> Clear(s, t)
 
 ----------------------------------------------------------------------------
-(* C19, clause by clause, over one step x = [pre, now, op, err, post].    *)
+(* C19, clause by clause, over one step x = [pre, now, op, err, post, ret] *)
+(* (ret = [has, m]: the mode the call returned).                           *)
 AMO(m) == Cardinality(NormalIds(m)) <= 1
 ActiveOK(s) == s.changed => Has(s.modes, s.active.id)
 
@@ -132,15 +161,21 @@ P_ActiveKept(x) == Has(x.pre.modes, x.pre.active.id) => Has(x.post.modes, x.pre.
 P_ActiveExists(x) == ActiveOK(x.pre) => ActiveOK(x.post)
 \* "clearing the active mode selects the normal mode".  With no normal mode the doc comment says
 \* ErrModeNotFound; the property text does not say, so only "success => a normal mode was selected".
+\* The mode a clear returns is the copy of the stored mode taken at the instant of the switch (lookup
+\* and switch are ONE atomic step): it is normal.  This is the form of the clause that can be judged
+\* on a response alone, i.e. also while other goroutines move the normal flag around.
+ClearResponseNormal(err, ret) == err = "OK" => ret.has /\ ret.m.normal
 P_Clear(x) == x.op.op = "Clear" =>
                 /\ x.err = "OK" => x.post.active.id \in NormalIds(x.pre.modes)
                 /\ NormalIds(x.pre.modes) # {} => x.err = "OK"
+                /\ ClearResponseNormal(x.err, x.ret)
 \* "switching to a different mode stamps its start time with the model clock's current time".
 \* SetActiveMode is documented not to stamp, so only ChangeActiveMode / ChangeToNormalMode.  What
 \* happens to the start time when the SAME mode is selected again is not settled by the text and
-\* not asserted here (the specification keeps it; see D_* below).
+\* not asserted here (the specification keeps it; see StepNotes below).  The clock's time, not a
+\* start_time the stored mode happens to carry; the returned mode shows it too.
 P_Stamp(x) == x.op.op \in {"Change", "Clear"} /\ x.err = "OK" /\ x.post.active.id # x.pre.active.id
-                => x.post.active.start = x.now
+                => x.post.active.start = x.now /\ (x.ret.has => x.ret.m.start = x.now)
 \* "Deleting an absent mode reports NotFound unless allow-missing is set, in which case it succeeds"
 \* (the id of the dummy active mode of a new model is left out: the text does not settle whether
 \* that is "absent" or "active")
@@ -171,9 +206,13 @@ StepNotes(x) ==
 ----------------------------------------------------------------------------
 (* Model checking instance: the real Next relation over all operations.   *)
 Ops ==
-       { MkOp("Create", "", n, t, "nil", FALSE, NoStart, 0) : n \in BOOLEAN, t \in Titles }
-  \cup { MkOp("Add", i, n, t, "nil", FALSE, NoStart, 0) : i \in Ids, n \in BOOLEAN, t \in Titles }
+       { MkOp("Create", "", n, t, "nil", FALSE, s, 0) : n \in BOOLEAN, t \in Titles, s \in {NoStart, 0} }
+  \cup { MkOp("Add", i, n, t, "nil", FALSE, s, 0) : i \in Ids, n \in BOOLEAN, t \in Titles, s \in {NoStart, 0} }
   \cup { MkOp("Update", i, n, t, m, FALSE, NoStart, 0) : i \in Ids, n \in BOOLEAN, t \in Titles, m \in Masks }
+  \* the client's read-modify-write: what GetActiveMode / ListModes returned, written back whole
+  \cup { MkOpS("Update", "", FALSE, t, "nil", FALSE, NoStart, 0, "active") : t \in Titles }
+  \cup { MkOpS("Update", i, FALSE, t, "nil", FALSE, NoStart, 0, "listed") : i \in Ids, t \in Titles }
+  \cup { MkOpS("Add", i, FALSE, t, "nil", FALSE, NoStart, 0, "active") : i \in Ids, t \in Titles }
   \cup { MkOp("Delete", i, FALSE, 0, "nil", am, NoStart, 0) : i \in Ids, am \in BOOLEAN }
   \cup { MkOp("SetActive", i, n, 0, "nil", FALSE, s, 0) : i \in Ids, n \in BOOLEAN, s \in {NoStart, 0} }
   \cup { MkOp("Change", i, FALSE, 0, "nil", FALSE, NoStart, 0) : i \in Ids }
@@ -188,12 +227,16 @@ Next == Tick \/ \E op \in Ops : Do(op)
 Spec == Init /\ [][Next]_vars
 
 \* every step the specification can take from the current state, as an observation
+\* (ChangeActiveMode / ChangeToNormalMode return the new active mode)
+RetOf(op, r) == IF op.op \in {"Change", "Clear"} /\ r.err = "OK" THEN [has |-> TRUE, m |-> r.post.active]
+                ELSE [has |-> FALSE, m |-> Dummy]
 Seen(op, newid) == LET r == Step(st, now, op, newid)
-                   IN [pre |-> st, now |-> now, op |-> op, err |-> r.err, post |-> r.post]
+                   IN [pre |-> st, now |-> now, op |-> op, err |-> r.err, post |-> r.post, ret |-> RetOf(op, r)]
 StepsHere == UNION { { Seen(op, newid) : newid \in NewIds(st, op) } : op \in Ops }
 
 TypeOK == /\ DOMAIN st.modes \subseteq Ids
-          /\ \A i \in DOMAIN st.modes : st.modes[i].normal \in BOOLEAN /\ st.modes[i].title \in Titles
+          /\ \A i \in DOMAIN st.modes : /\ st.modes[i].normal \in BOOLEAN /\ st.modes[i].title \in Titles
+                                       /\ st.modes[i].start \in -1..MaxNow
           /\ st.active.id \in Ids \cup {""} /\ st.active.start \in -1..MaxNow
           /\ st.changed \in BOOLEAN /\ now \in 0..MaxNow
 AtMostOneNormal == AMO(st.modes)
